@@ -245,6 +245,11 @@ def run_junk(tier, acc):
                         except Exception as e:
                             acc.fail(case, 'junk line %s at line %d (%s) makes the reader raise %r' % (jname, pos, enc, e), 'junk-raise:' + jname.split('_')[0])
                             continue
+                        want_err = 1 if jname in ('undecodable', 'broken_hex', 'odd_hex') else 0
+                        if got == seq and (npw != len(seq) or nerr != want_err):
+                            acc.fail(case, 'junk line %s at line %d (%s, valid lines %s): num_passwords=%d num_encoding_errors=%d, expected %d and %d'
+                                     % (jname, pos, enc, hexmode, npw, nerr, len(seq), want_err), 'junk-counters:' + jname.split('_')[0])
+                            continue
                         if got != seq:
                             extra = [g for g in got if g not in seq]
                             acc.fail(case, 'junk line %s (%r) at line %d (%s): reader yields %r instead of %r' % (jname, jb, pos, enc, got, seq),
